@@ -149,25 +149,29 @@ def sym_eq(a, b) -> bool:
 
 
 class DeviationTape:
-    """Preemption bounding: FIFO everywhere except at len(devs) decision positions.
-    devs = [(pos_var, arm_var), ...]: the j-th deviation happens at the decision whose
-    index equals pos_var (symbolic; the harness's precondition orders them strictly) and
-    takes the non-FIFO arm 1 + arm_var (clamped to the runnable set)."""
+    """Preemption bounding: FIFO everywhere except at len(devs) decision points.
+    devs = [(gap_var, arm_var), ...]: the j-th deviation happens gap_var decisions after the
+    previous one (gap_var in 0..horizon; the value `horizon` means "never"), and takes the
+    non-FIFO arm 1 + arm_var (clamped to the runnable set).  Independent variable ranges:
+    no ordering precondition is needed."""
 
-    def __init__(self, devs):
+    def __init__(self, devs, horizon: int):
         self.devs = list(devs)
+        self.horizon = horizon
         self.pos = 0
+        self.since = 0  # decisions since the previous deviation
         self.next_dev = 0
         self.taken: list[int] = []
 
     def __call__(self, n: int) -> int:
-        i = self.pos
         self.pos += 1
         v = 0
-        if self.next_dev < len(self.devs):
-            pvar, avar = self.devs[self.next_dev]
-            if sym_eq(pvar, i):
+        if self.next_dev < len(self.devs) and self.since < self.horizon:
+            gvar, avar = self.devs[self.next_dev]
+            if sym_eq(gvar, self.since):
                 v = 1 + pick(avar, n - 1)
                 self.next_dev += 1
+                self.since = -1
+        self.since += 1
         self.taken.append(v)
         return v
